@@ -248,16 +248,20 @@ fn gen_codes(rng: &mut Rng, out: &mut Vec<String>) {
 }
 
 fn gen_idx(rng: &mut Rng, out: &mut Vec<String>) {
-    let n = match rng.below(10) {
+    let n = match rng.below(12) {
         0 => 1,
         1 => 2,
         2 => 4,
         3 => 8,
+        // larger alphabets (amino acids, letters): any size is in the quantifier
+        4 => *rng.pick(&[9usize, 12, 16, 17, 20, 21, 26]),
         _ => *rng.pick(&[3usize, 3, 5, 5, 6, 7]),
     };
     let alpha = alphabet(rng, n);
+    // the address table has 2^(bits*q) + 1 slots: keep it below 2^16
+    let bits = bits_for(n);
     let mut qmax = 1;
-    while qmax < 10 && (n as u64).pow(qmax as u32 + 1) <= 20_000 {
+    while qmax < 10 && bits * (qmax + 1) <= 16 {
         qmax += 1;
     }
     let q = if rng.chance(1, 5) { 1 + rng.below(qmax) } else { 1 + rng.below(qmax.min(4)) };
@@ -635,7 +639,7 @@ pub fn exec(toks: &[&str]) -> Result<String, String> {
             sorted.sort_unstable();
             sorted.dedup();
             let n = sorted.len();
-            if bits_for(n) * q as usize > 64 || (n as f64).powi(q as i32) > 2.0e6 {
+            if bits_for(n) * q as usize > 22 {
                 return Err("index too large".into());
             }
             check_word(&alpha, &text)?;
